@@ -119,3 +119,31 @@ func TestRefTLSInterop(t *testing.T) {
 		}
 	}
 }
+
+func TestRefLegacyTLSInterop(t *testing.T) {
+	p := Get()
+	for _, v := range []uint16{0x0301, 0x0302} {
+		for _, auth := range []gmtls.ClientAuthType{gmtls.NoClientCert, gmtls.RequireAndVerifyClientCert} {
+			sc := &gmtls.Config{Certificates: []gmtls.Certificate{p.RSA}, Time: FixedTime, Rand: wire.NewRand(1), CipherSuites: []uint16{gmref.SuiteAESCBC}, ClientAuth: auth, ClientCAs: p.StdRootsG, MinVersion: v, MaxVersion: v}
+			var sv, dummy View
+			var rv RefView
+			id := gmref.Identity{Certs: [][]byte{p.StdClient.Certificate[0]}, TLSKey: p.StdClient.PrivateKey}
+			o := Run(RefEnd(true, id, 7, func(q *gmref.Peer) { q.UseTLSVersion(v) }, &gmref.Script{SendClientCert: true, Data: PingPong(true)}, &rv),
+				GMEnd(sc, false, LibApp(false), &sv, nil), &dummy, &sv, nil)
+			if !o.S.Complete || !rv.Res.Completed || string(o.S.Read) != "ping" || string(rv.Peer.Received) != "pong" {
+				t.Errorf("legacy ref client / lib server version %04x auth %v: %s ref=%+v seen=%v checks=%v", v, auth, o.Describe(), rv.Res, rv.Peer.Seen, rv.Peer.Checks)
+			}
+			cc := &gmtls.Config{RootCAs: p.StdRootsG, ServerName: ServerName, Time: FixedTime, Rand: wire.NewRand(2), CipherSuites: []uint16{gmref.SuiteAESCBC}, Certificates: []gmtls.Certificate{p.StdClient}, MinVersion: v, MaxVersion: v}
+			var cv View
+			var rs RefView
+			sid := gmref.Identity{Certs: [][]byte{p.RSA.Certificate[0]}, RSAKey: p.RSAKey}
+			o = Run(GMEnd(cc, true, LibApp(true), &cv, nil),
+				RefEnd(false, sid, 9, func(q *gmref.Peer) { q.UseTLSVersion(v); q.RequestCert = auth != gmtls.NoClientCert }, &gmref.Script{Data: PingPong(false)}, &rs), &cv, &dummy, nil)
+			if !o.C.Complete || !rs.Res.Completed || string(o.C.Read) != "pong" || string(rs.Peer.Received) != "ping" {
+				t.Errorf("lib client / legacy ref server version %04x auth %v: %s ref=%+v seen=%v checks=%v", v, auth, o.Describe(), rs.Res, rs.Peer.Seen, rs.Peer.Checks)
+			} else {
+				t.Logf("ok %04x %v: checks %v / %v", v, auth, rs.Peer.Checks, rv.Peer.Checks)
+			}
+		}
+	}
+}
